@@ -6,6 +6,6 @@ CONSTANTS
   DocCells = {}
   MaxDocCells = 0
   FixedDoc = TRUE
-  SheetArgs = {"S1"}
+  SheetArgs = {"S1", "s1"}
 INVARIANT Dump
 CHECK_DEADLOCK FALSE
